@@ -184,7 +184,7 @@ def run(ctx, report):
     report.not_decided = 'aliasing of distinct symbolic addresses; instruction forms outside the form model (SIB/16-bit addressing variants share the same lifter path).'
     report.assumptions.append('form model: sa/liftforms.py mirrors x86_mn._dis/special_opcodes operand dictionaries; validated at authoring time against the real '
                               'lifter (2949 templates identical, 25 error classes identical; tools/validate_lifter.py)')
-    R1 = report.rule('C11.D1', 'every supported form lifts without error', floor=1500 if not thorough else 2500)
+    R1 = report.rule('C11.D1', 'every supported form lifts without error', floor=1500)
     R2 = report.rule('C11.D2', 'result is a list of assignments with register/memory destinations', floor=1400)
     R3 = report.rule('C11.D3', 'widths are determinate and consistent', floor=1400)
     R4 = report.rule('C11.D4', 'single assignment per location', floor=1400)
